@@ -243,6 +243,7 @@ class Model:
         self._reach = {}
         self._ext_cache = {}
         self._arr_cache = {}
+        self._maxocc_cache = {}
 
     # --- basic
     def step(self, q, sym):
@@ -293,27 +294,116 @@ class Model:
         return frozenset(out)
 
     # --- queries on multisets
+    def _maxocc(self, sym):
+        """maxocc[q] = the largest number of `sym` transitions on any path from q to a final state
+        (capped at 99 = unbounded)."""
+        t = self._maxocc_cache.get(sym)
+        if t is not None:
+            return t
+        INF = 99
+        n = self.nstates
+        val = [0 if q in self.live else -1 for q in range(n)]
+        for _round in range(n + 2):
+            changed = False
+            for q in range(n):
+                if q not in self.live:
+                    continue
+                best = 0 if q in self.final else -1
+                for s2, q2 in self.delta[q].items():
+                    if q2 in self.live and val[q2] >= 0:
+                        v = val[q2] + (1 if s2 == sym else 0)
+                        if v > best:
+                            best = v
+                if best > val[q]:
+                    val[q] = min(best, INF)
+                    changed = True
+            if not changed:
+                break
+        else:
+            # still growing after n+2 rounds: a cycle carries the symbol; propagate "unbounded"
+            grow = True
+            while grow:
+                grow = False
+                snapshot = list(val)
+                for q in range(n):
+                    if q not in self.live:
+                        continue
+                    for s2, q2 in self.delta[q].items():
+                        if q2 in self.live and snapshot[q2] >= 0:
+                            v = snapshot[q2] + (1 if s2 == sym else 0)
+                            if v > val[q] and val[q] < INF:
+                                val[q] = INF
+                                grow = True
+        self._maxocc_cache[sym] = val
+        return val
+
     def extendable(self, multiset):
-        """Is there an accepted word that contains `multiset` as a sub-multiset?"""
+        """Is there an accepted word that contains `multiset` as a sub-multiset?
+        Search over (DFA state, remaining counts); taking a transition whose symbol is still wanted always
+        consumes it (dominance), and a branch is cut as soon as some wanted symbol can no longer occur
+        often enough on any path to a final state."""
         key = tuple(sorted(Counter(multiset).items()))
         r = self._ext_cache.get(key)
         if r is not None:
             return r
+        for sname, _c in key:
+            if sname not in self.alpha:
+                self._ext_cache[key] = False
+                return False
+        syms = [k for k, _c in key]
+        mo = [self._maxocc(k) for k in syms]
+        start = (0, tuple(c for _k, c in key))
+        seen = {start}
+        st = [start]
+        ok = False
+        idx = {k: i for i, k in enumerate(syms)}
+        while st:
+            q, rem = st.pop()
+            if not any(rem):
+                ok = True       # q is live: a final state is reachable with free moves
+                break
+            feasible = True
+            for i, c in enumerate(rem):
+                if c and mo[i][q] < c:
+                    feasible = False
+                    break
+            if not feasible:
+                continue
+            nxt_free = []
+            for s2, q2 in self.delta[q].items():
+                if q2 not in self.live:
+                    continue
+                i = idx.get(s2)
+                if i is not None and rem[i] > 0:
+                    node = (q2, rem[:i] + (rem[i] - 1,) + rem[i + 1:])
+                    if node not in seen:
+                        seen.add(node)
+                        st.append(node)          # wanted symbols are explored first (stack: pushed last)
+                else:
+                    node = (q2, rem)
+                    if node not in seen:
+                        seen.add(node)
+                        nxt_free.append(node)
+            # free moves go below the consuming ones on the stack
+            st[0:0] = nxt_free
+        self._ext_cache[key] = ok
+        return ok
+
+    def extendable_slow(self, multiset):
+        """Reference implementation (state-set search) kept for the model self-test."""
+        key = tuple(sorted(Counter(multiset).items()))
         for s, _c in key:
             if s not in self.alpha:
-                self._ext_cache[key] = False
                 return False
         seen = set()
         st = [(self._reach_set({0}), key)]
-        ok = False
         while st:
             S, rem = st.pop()
             if (S, rem) in seen:
                 continue
             seen.add((S, rem))
             if not rem:
-                ok = True  # every live state reaches a final state
-                break
+                return True
             for i, (sym, c) in enumerate(rem):
                 T = {self.delta[q].get(sym, -1) for q in S}
                 T = {t for t in T if t in self.live}
@@ -322,8 +412,7 @@ class Model:
                 T = self._reach_set(T)
                 rem2 = rem[:i] + (((sym, c - 1),) if c > 1 else ()) + rem[i + 1:]
                 st.append((T, rem2))
-        self._ext_cache[key] = ok
-        return ok
+        return False
 
     def arrangements(self, multiset, limit=5000):
         """All accepted words that are permutations of multiset (as name tuples)."""
@@ -354,28 +443,93 @@ class Model:
         self._arr_cache[key] = out
         return out
 
+    def _feasible(self, q, syms, rem, mo):
+        for i, c in enumerate(rem):
+            if c and mo[i][q] < c:
+                return False
+        return True
+
     def arrangeable(self, multiset):
         """Is some permutation of multiset accepted?"""
         key = tuple(sorted(Counter(multiset).items()))
-        seen = set()
-        st = [(0, key)]
+        for sname, _c in key:
+            if sname not in self.alpha:
+                return False
+        syms = [k for k, _c in key]
+        mo = [self._maxocc(k) for k in syms]
+        start = (0, tuple(c for _k, c in key))
+        seen = {start}
+        st = [start]
         while st:
             q, rem = st.pop()
-            if (q, rem) in seen:
-                continue
-            seen.add((q, rem))
-            if not rem:
+            if not any(rem):
                 if q in self.final:
                     return True
                 continue
-            for i, (sym, c) in enumerate(rem):
-                q2 = self.step(q, sym)
-                if q2 >= 0:
-                    st.append((q2, rem[:i] + (((sym, c - 1),) if c > 1 else ()) + rem[i + 1:]))
+            if not self._feasible(q, syms, rem, mo):
+                continue
+            for i, c in enumerate(rem):
+                if c:
+                    q2 = self.step(q, syms[i])
+                    if q2 >= 0:
+                        node = (q2, rem[:i] + (c - 1,) + rem[i + 1:])
+                        if node not in seen:
+                            seen.add(node)
+                            st.append(node)
         return False
 
     def missing(self, multiset, maxextra=12):
-        """A shortest list of extra child names such that multiset+extra is arrangeable, or None."""
+        """A shortest list of extra child names such that multiset+extra is arrangeable, or None.
+        0-1 BFS over (state, remaining counts); a wanted symbol is always consumed when taken (dominance), so
+        insertions are only tried for symbols that are not wanted any more; infeasible nodes are cut."""
+        key = tuple(sorted(Counter(multiset).items()))
+        for sname, _c in key:
+            if sname not in self.alpha:
+                return None
+        syms = [k for k, _c in key]
+        idx = {k: i for i, k in enumerate(syms)}
+        mo = [self._maxocc(k) for k in syms]
+        start = (0, tuple(c for _k, c in key))
+        dist = {start: (0, None, None)}
+        dq = deque([start])
+        goal = None
+        while dq:
+            node = dq.popleft()
+            q, rem = node
+            d = dist[node][0]
+            if not any(rem) and q in self.final:
+                goal = node
+                break
+            if not self._feasible(q, syms, rem, mo):
+                continue
+            for s2, q2 in sorted(self.delta[q].items()):
+                if q2 not in self.live:
+                    continue
+                i = idx.get(s2)
+                if i is not None and rem[i] > 0:
+                    n2 = (q2, rem[:i] + (rem[i] - 1,) + rem[i + 1:])
+                    if n2 not in dist or dist[n2][0] > d:
+                        dist[n2] = (d, node, None)
+                        dq.appendleft(n2)
+                elif d < maxextra:
+                    n2 = (q2, rem)
+                    if n2 not in dist:
+                        dist[n2] = (d + 1, node, s2)
+                        dq.append(n2)
+        if goal is None:
+            return None
+        out = []
+        node = goal
+        while node is not None:
+            _d, prev, sym = dist[node]
+            if sym is not None:
+                out.append(sym)
+            node = prev
+        out.reverse()
+        return out
+
+    def missing_slow(self, multiset, maxextra=12):
+        """Reference implementation kept for the model self-test (length of the result is what matters)."""
         key = tuple(sorted(Counter(multiset).items()))
         for s, _c in key:
             if s not in self.alpha:
@@ -391,7 +545,6 @@ class Model:
             if not rem and q in self.final:
                 goal = node
                 break
-            # zero-cost: consume from rem
             for i, (sym, c) in enumerate(rem):
                 q2 = self.step(q, sym)
                 if q2 >= 0:
@@ -409,15 +562,7 @@ class Model:
                             dq.append(n2)
         if goal is None:
             return None
-        out = []
-        node = goal
-        while node is not None:
-            _d, prev, sym = dist[node]
-            if sym is not None:
-                out.append(sym)
-            node = prev
-        out.reverse()
-        return out
+        return dist[goal][0]
 
     def sample_word(self, rng, maxlen=8, stop_p=0.35):
         """A random accepted word (biased to short)."""
@@ -778,6 +923,25 @@ def selftest():
     for t, vals in _PATTERN_VALID.items():
         info = simple_info(t)
         assert info['kind'] == 'pattern', (t, info)
+    # the pruned searches must agree with the plain reference implementations
+    import random
+    rng = random.Random(20260927)
+    for name, m in sorted(MODELS.items()):
+        for _ in range(12):
+            if rng.random() < 0.5:
+                ms = list(m.sample_word(rng, maxlen=5))
+                if ms and rng.random() < 0.6:
+                    ms.pop(rng.randrange(len(ms)))
+                if rng.random() < 0.3:
+                    ms.append(rng.choice(m.alpha))
+                rng.shuffle(ms)
+            else:
+                ms = [rng.choice(m.alpha) for _ in range(rng.randint(0, 4))]
+            m._ext_cache.clear()
+            assert m.extendable(ms) == m.extendable_slow(ms), ('extendable', name, ms)
+            a = m.missing(ms)
+            assert (None if a is None else len(a)) == m.missing_slow(ms), ('missing', name, ms)
+            assert m.arrangeable(ms) == bool(m.arrangements(ms, limit=2)), ('arrangeable', name, ms)
     return True
 
 
